@@ -17,7 +17,7 @@ HOT = list(' \t\'"\\$#%:;,=~*?[]()|&<') + ['a']
 REC = os.path.join(BIN, 'rec')
 
 # positions: name -> needs (restrictions on the word)
-POSITIONS = ['cmd_arg', 'cmd_env', 'step_arg', 'step_env', 'test_arg',
+POSITIONS = ['cmd_arg', 'cmd_env', 'str_env', 'step_arg', 'step_env', 'test_arg',
              'test_env', 'drv_arg', 'copt_list', 'copt_str', 'lopt_list',
              'lopt_str', 'define', 'gopt', 'glopt', 'cmd_word', 'file_arg',
              'incdir']
@@ -98,6 +98,12 @@ def write_project(root, slots, backend):
         elif s.pos == 'cmd_env':
             L.append("command(%r, cmd=[R, %r], environment={'VV_E': %r})" %
                      ('c' + i, i, w))
+            targets.append('c' + i)
+        elif s.pos == 'str_env':
+            # a command given as one shell string that starts two processes:
+            # the declared environment applies to both
+            L.append("command(%r, cmd=R + ' %sA && ' + R + ' %sB', "
+                     "environment={'VV_E': %r})" % ('c' + i, i, i, w))
             targets.append('c' + i)
         elif s.pos == 'step_arg':
             L.append("build_step(%r, cmd=[R, %r, %r])" % (
@@ -274,6 +280,12 @@ def run_project(slots, backend, ninja=None):
                     ev['started'] = True
                     ev['delivered'] = [syms(x) for x in rs[0]['argv'][2:]]
                     ev['argv'] = [syms(x) for x in rs[0]['argv']]
+            elif s.pos == 'str_env':
+                rs = byid.get(i + 'B', [])
+                if rs and byid.get(i + 'A'):
+                    ev['started'] = True
+                    ev['delivered'] = ([syms(rs[0]['env']['VV_E'])]
+                                       if 'VV_E' in rs[0]['env'] else [])
             elif s.pos in ('cmd_env', 'step_env', 'test_env'):
                 rs = byid.get(i, [])
                 if rs:
